@@ -343,7 +343,10 @@ func c09Mix(c *mon.Ctx, r *mon.Rand) {
 					case 4:
 						s.Histogram(name, tally.ValueBuckets{1, 2, 3}).RecordValue(float64(i % 5))
 					case 5:
-						s.Histogram(name+"d", nil).RecordDuration(time.Duration(i))
+						// bucket layouts that collide in the shared bucket cache
+						layouts := []tally.Buckets{nil, tally.DurationBuckets{10 * time.Millisecond, 40 * time.Millisecond}, tally.DurationBuckets{20 * time.Millisecond, 30 * time.Millisecond}, tally.DurationBuckets{40 * time.Millisecond, 10 * time.Millisecond}}
+						k := wr.Intn(len(layouts))
+						s.Histogram(fmt.Sprintf("%sd%d", name, k), layouts[k]).RecordDuration(time.Duration(i))
 					case 6:
 						tally.VerifReportPass(root)
 					case 7:
